@@ -259,3 +259,71 @@ Proof. vm_compute. reflexivity. Qed.
 
 Theorem subscript_total : fold_right (fun kv n => snd kv + n) 0 subscript_counts = 304.
 Proof. vm_compute. reflexivity. Qed.
+
+(* ---------------------------------------------------------------- analyzer state that survives from one file to the next *)
+(* Rule and analyzer objects live for the whole run.  Gen.state_sites lists every place outside __init__ where an attribute of `self` or a
+   module-level name is assigned, subscript-assigned, mutated through a container method or declared global; a site is covered when it is
+   a reset (a fresh value is assigned) or mutates an attribute the class resets at the start of an analysis.  The uncovered sites are
+   audited here, by hand, in four groups; a NEW uncovered site (a parse memo, a `last result` kept for the next file, a module-level cache)
+   breaks state_census on the next run whether or not a generated input shows its effect. *)
+Definition audited_state_sites : list string :=
+  [ (* objects built per file or per finalize(), never shared between files: the collection-pipeline detector is constructed in check() from the file's
+   content; ConstantGroup / UnionFind are locals of find_constant_groups; _DepthTracker is constructed per function *)
+   "src/linters/collection_pipeline/detector.py::PipelinePatternDetector.visit_AsyncFunctionDef::self._func_body_stack.append";
+   "src/linters/collection_pipeline/detector.py::PipelinePatternDetector.visit_AsyncFunctionDef::self._func_body_stack.pop";
+   "src/linters/collection_pipeline/detector.py::PipelinePatternDetector.visit_For::self.matches.append";
+   "src/linters/collection_pipeline/detector.py::PipelinePatternDetector.visit_FunctionDef::self._func_body_stack.append";
+   "src/linters/collection_pipeline/detector.py::PipelinePatternDetector.visit_FunctionDef::self._func_body_stack.pop";
+   "src/linters/dry/constant.py::ConstantGroup.add_location::self.all_names.add";
+   "src/linters/dry/constant.py::ConstantGroup.add_location::self.locations.append";
+   "src/linters/dry/constant_matcher.py::UnionFind.find::self._parent[]=";
+   "src/linters/dry/constant_matcher.py::UnionFind.union::self._parent[]=";
+   "src/linters/nesting/python_analyzer.py::_DepthTracker.record::self.max_depth=";
+   "src/linters/nesting/python_analyzer.py::_DepthTracker.record::self.max_depth_line=";
+  (* assigned from the current file at the entry of every analysis, before any use (parent maps; the statement detector, reset to None in a
+   finally) *)
+   "src/linters/dry/python_analyzer.py::PythonDuplicateAnalyzer.analyze::self._statement_detector=";
+   "src/linters/magic_numbers/python_analyzer.py::PythonMagicNumberAnalyzer.find_numeric_literals::self.parent_map=";
+   "src/linters/print_statements/python_analyzer.py::PythonPrintStatementAnalyzer.find_print_calls::self.parent_map=";
+  (* the stores of the two cross-file rules and what they set up on the first file (intended evidence, emptied by finalize(); the compute/store
+   order is modelled: dry_steps / stringly_steps; sticky _config / _project_root are the subject of C08 / C10) *)
+   "src/linters/dry/linter.py::DRYRule._ensure_storage_initialized::self._file_analyzer=";
+   "src/linters/dry/linter.py::DRYRule._ensure_storage_initialized::self._storage=";
+   "src/linters/dry/linter.py::DRYRule._extract_and_store_constants::self._constants.extend";
+   "src/linters/dry/linter.py::DRYRule._process_file::self._file_contents[]=";
+   "src/linters/dry/linter.py::DRYRule._process_file::self._project_root=";
+   "src/linters/dry/linter.py::DRYRule.check::self._config=";
+   "src/linters/stringly_typed/linter.py::StringlyTypedRule._ensure_storage_initialized::self._config=";
+   "src/linters/stringly_typed/linter.py::StringlyTypedRule._ensure_storage_initialized::self._storage=";
+  (* configuration-time registries and caches keyed by path / pattern / configuration (their keys never depend on another file's content; the
+   ignore-parser singleton and the caches are the subject of C08 / C10) *)
+   "src/core/registry.py::RuleRegistry.register::self._rules[]=";
+   "src/linter_config/ignore.py::IgnoreDirectiveParser.is_ignored::self._ignore_cache[]=";
+   "src/linter_config/ignore.py::clear_ignore_parser_cache::global _CACHED_PARSER";
+   "src/linter_config/ignore.py::clear_ignore_parser_cache::global _CACHED_PROJECT_ROOT";
+   "src/linter_config/ignore.py::get_ignore_parser::global _CACHED_PARSER";
+   "src/linter_config/ignore.py::get_ignore_parser::global _CACHED_PROJECT_ROOT";
+   "src/linters/dry/block_filter.py::BlockFilterRegistry.disable_filter::self._enabled_filters.discard";
+   "src/linters/dry/block_filter.py::BlockFilterRegistry.enable_filter::self._enabled_filters.add";
+   "src/linters/dry/block_filter.py::BlockFilterRegistry.register::self._enabled_filters.add";
+   "src/linters/dry/block_filter.py::BlockFilterRegistry.register::self._filters.append";
+   "src/linters/dry/inline_ignore.py::InlineIgnoreParser.parse_file::self._ignore_ranges[]=";
+   "src/linters/file_placement/linter.py::FilePlacementRule._get_or_create_linter::self._linter_cache[]=";
+   "src/linters/file_placement/pattern_matcher.py::PatternMatcher._get_compiled::self._compiled_patterns[]=";
+   "src/linters/stringly_typed/ignore_checker.py::IgnoreChecker._get_file_content::self._file_content_cache[]="].
+
+Definition state_ok (s : string * bool) : bool := snd s || smem (fst s) audited_state_sites.
+
+Lemma state_census_b : forallb state_ok state_sites = true.
+Proof. vm_compute. reflexivity. Qed.
+
+Theorem state_census : forall s, In s state_sites -> snd s = true \/ In (fst s) audited_state_sites.
+Proof.
+  intros s I. pose proof (proj1 (forallb_forall state_ok state_sites) state_census_b s I) as H.
+  unfold state_ok in H. apply orb_prop in H. destruct H as [H|H]; [left; exact H|right; apply smem_In; exact H].
+Qed.
+
+(* nothing audited is stale *)
+Theorem audited_state_sites_exist :
+  forallb (fun a => existsb (fun s : string * bool => String.eqb a (fst s) && negb (snd s)) state_sites) audited_state_sites = true.
+Proof. vm_compute. reflexivity. Qed.
